@@ -28,8 +28,28 @@ func checkAliasReset(p *Program, r *Report, rule string) {
 		short := strings.TrimPrefix(fnName(f), pkgTemplate+".")
 		for _, b := range f.Blocks {
 			for _, in := range b.Instrs {
-				st, ok := in.(*ssa.Store)
-				if !ok || !isTmplPtr(st.Addr.Type()) {
+				// the reset: a whole-struct store through a *Template, or a call of a helper that does that to the
+				// template handed to it
+				type resetAt struct {
+					Addr ssa.Value
+					ssa.Instruction
+				}
+				var st *resetAt
+				switch x := in.(type) {
+				case *ssa.Store:
+					if isTmplPtr(x.Addr.Type()) {
+						st = &resetAt{x.Addr, x}
+					}
+				case *ssa.Call:
+					if g := staticCallee(x.Common()); g != nil && g.Pkg == tsp && g != f {
+						for _, i := range resetsTemplateParam(g, isTmplPtr, 0) {
+							if i < len(x.Common().Args) {
+								st = &resetAt{x.Common().Args[i], x}
+							}
+						}
+					}
+				}
+				if st == nil {
 					continue
 				}
 				if _, fresh := st.Addr.(*ssa.Alloc); fresh {
@@ -48,7 +68,7 @@ func checkAliasReset(p *Program, r *Report, rule string) {
 						}
 						after := false
 						if b2 == b {
-							after = before(st, fa)
+							after = before(st.Instruction, fa)
 						} else {
 							after = blockReaches(b, b2)
 						}
@@ -66,6 +86,43 @@ func checkAliasReset(p *Program, r *Report, rule string) {
 	if n == 0 {
 		r.OK(rule, "template#no-in-place-reset", "", "no template is overwritten in place")
 	}
+}
+
+// resetsTemplateParam: the parameters of g (a *Template each) through which g overwrites the whole template, itself
+// or in a helper it hands the parameter to.
+func resetsTemplateParam(g *ssa.Function, isTmplPtr func(types.Type) bool, depth int) []int {
+	if g == nil || g.Blocks == nil || depth > 2 {
+		return nil
+	}
+	var out []int
+	for i, prm := range g.Params {
+		if !isTmplPtr(prm.Type()) {
+			continue
+		}
+		hit := false
+		for _, ref := range *prm.Referrers() {
+			switch x := ref.(type) {
+			case *ssa.Store:
+				if x.Addr == ssa.Value(prm) {
+					hit = true
+				}
+			case *ssa.Call:
+				h := staticCallee(x.Common())
+				if h == nil || h == g || h.Pkg != g.Pkg {
+					continue
+				}
+				for _, j := range resetsTemplateParam(h, isTmplPtr, depth+1) {
+					if j < len(x.Common().Args) && x.Common().Args[j] == ssa.Value(prm) {
+						hit = true
+					}
+				}
+			}
+		}
+		if hit {
+			out = append(out, i)
+		}
+	}
+	return out
 }
 
 // isCtorCall: v is a call of a helper of the repository all of whose returns are one struct
